@@ -145,7 +145,8 @@ def plan(tier, rng, sl, nslices, stats):
     cfg = TIERS[tier]
     for i in range(cfg["random"]):
         if i % 40 == 7:
-            yield {"kind": "pda", "p": gpda.many_states_case(rng), "light": True}
+            yield {"kind": "pda", "p": gpda.many_states_case(rng) if i % 80 == 7 else gpda.digit_clash_case(rng),
+                   "light": True}
         elif i % 6 == 5:
             yield {"kind": "pda", "p": gpda.push_chain_case(rng)}
         elif i % 3 == 0:
